@@ -31,8 +31,18 @@ KNOWN = os.path.join(VERIF, "known_findings.json")
 NPROC = int(os.environ.get("VERIF_NPROC", "16"))
 
 
-class Broken(Exception):
-    """The harness itself is broken (nondeterminism, wrong tree, ...): exit 2."""
+class Broken(BaseException):
+    """
+    The harness itself is broken (nondeterminism, wrong tree, ...): exit 2.
+    Derives from BaseException so that the broad ``except Exception`` clauses which the
+    judges put around calls into pyrtcm can never mistake a harness fault for a violation.
+    """
+
+
+def require(cond, msg="harness invariant violated"):
+    """assert for harness code: raises Broken, never AssertionError."""
+    if not cond:
+        raise Broken(msg)
 
 
 def bootstrap():
